@@ -12,28 +12,44 @@ KINDS = ["LOT", "LOTS_THRU", "LOTS_AND", "LOTAC", "DIV", "ALQ", "ALL"]
 LOTW = ["Lot", "L", "Lt"]
 
 
+def _lotnum(rng):
+    return rng.choice([rng.randint(1, 9), rng.randint(1, 9), rng.randint(10, 40)])
+
+
 def render_element(kind, rng, used_acre_lots):
     if kind == "LOT":
-        return {"kind": kind, "text": "%s %d" % (rng.choice(LOTW), rng.randint(1, 9))}
+        w = rng.choice(LOTW)
+        return {"kind": kind, "text": "%s%s%d" % (w, rng.choice([" ", " ", ""]) if w != "Lt" else " ", _lotnum(rng))}
     if kind == "LOTS_THRU":
-        a = rng.randint(1, 7)
-        return {"kind": kind, "text": "Lots %d%s%d" % (a, rng.choice([" - ", "-", " through ", " thru "]), a + 2)}
+        a = _lotnum(rng)
+        return {"kind": kind, "text": "%s %d%s%d" % (rng.choice(["Lots", "Lots", "Lts", "L"]), a,
+                                                    rng.choice([" - ", "-", " through ", " thru ", " to ", " – "]),
+                                                    a + rng.randint(1, 3))}
     if kind == "LOTS_AND":
-        return {"kind": kind, "text": "Lots %d%s%d" % (rng.randint(1, 9), rng.choice([" and ", ", ", " & "]), rng.randint(1, 9))}
+        return {"kind": kind, "text": "Lots %d%s%d" % (_lotnum(rng), rng.choice([" and ", ", ", " & "]), _lotnum(rng))}
     if kind == "LOTAC":
-        n = rng.randint(1, 9)
-        ac = "%d.%02d" % (rng.randint(10, 49), rng.randint(0, 99))
+        n = _lotnum(rng)
+        # acreages as they are written: two decimals, one, four, or none; tight against the number or after a blank
+        ac = rng.choice(["%d.%02d" % (rng.randint(10, 49), rng.randint(0, 99)), "%d.%d" % (rng.randint(10, 49), rng.randint(0, 9)),
+                         "%d.%04d" % (rng.randint(10, 49), rng.randint(0, 9999)), "%d" % rng.randint(10, 49)])
         br = rng.choice(["()", "[]"])
-        el = {"kind": kind, "text": "Lot %d %s%s%s" % (n, br[0], ac, br[1]), "lot": "L%d" % n, "ac": ac}
+        el = {"kind": kind, "text": "Lot %d%s%s%s%s" % (n, rng.choice([" ", " ", ""]), br[0], ac, br[1]), "lot": "L%d" % n, "ac": ac}
         return el
     if kind == "DIV":
         txt, pre = rng.choice(HALVES)
         a = rng.randint(1, 8)
         conn = rng.choice([" of ", " of ", " "])
-        return {"kind": kind, "text": "%s%sLots %d and %d" % (txt, conn, a, a + 1), "div_prefix": pre, "nlots": 2}
+        form = rng.random()
+        if form < 0.5:
+            lots, n = "Lots %d and %d" % (a, a + 1), 2
+        elif form < 0.75:
+            lots, n = "Lot %d" % a, 1
+        else:
+            lots, n = "Lots %d - %d" % (a, a + 2), 3
+        return {"kind": kind, "text": "%s%s%s" % (txt, conn, lots), "div_prefix": pre, "nlots": n}
     if kind == "ALQ":
         return {"kind": kind, "text": rng.choice(CHAINS)}
-    return {"kind": "ALL", "text": "ALL"}
+    return {"kind": "ALL", "text": rng.choice(["ALL", "ALL", "All"])}
 
 
 def mk_case(cid, kinds, seps, suppress, rng, origin="tlc"):
